@@ -24,8 +24,8 @@ FILEMAP = {
     "src/pdf_lib/pdf_prim.rs": ["C02", "C15", "C05", "C12"],
     "src/pdf_lib/pdf_obj.rs": ["C02", "C16", "C15", "C05", "C14", "C03", "C06"],
     "src/pdf_lib/pdf_traverse_xref.rs": ["C03", "C04", "C01"],
-    "src/pdf_lib/pdf_file.rs": ["C13", "C03", "C04"],
-    "src/pdf_lib/pdf_streams.rs": ["C13", "C14", "C03", "C06"],
+    "src/pdf_lib/pdf_file.rs": ["C13", "C15", "C03", "C04"],
+    "src/pdf_lib/pdf_streams.rs": ["C13", "C14", "C15", "C03", "C06"],
     "src/pdf_lib/pdf_filters.rs": ["C07", "C06", "C03"],
     "src/pdf_lib/pdf_type_check.rs": ["C08", "C09", "C10"],
     "src/pdf_lib/catalog.rs": ["C10"],
@@ -35,15 +35,15 @@ FILEMAP = {
     "src/pdf_lib/name_tree.rs": ["C10"],
     "src/pdf_lib/number_tree.rs": ["C10"],
     "src/pdf_lib/pdf_page_dom.rs": ["C11", "C01"],
-    "src/pdf_lib/pdf_content_streams.rs": ["C12", "C01"],
+    "src/pdf_lib/pdf_content_streams.rs": ["C12", "C15", "C01"],
     "src/pdf_lib/pdf_operator_types.rs": ["C12"],
     "src/pcore/parsebuffer.rs": ["C17", "C19", "C15", "C18", "C02"],
     "src/pcore/transforms.rs": ["C17", "C03"],
     "src/pcore/prim_combinators.rs": ["C18", "C15"],
     "src/pcore/prim_ascii.rs": ["C18", "C15"],
     "src/pcore/prim_binary.rs": ["C19", "C15", "C13"],
-    "src/rtps_lib/rtps_prim.rs": ["C20"],
-    "src/rtps_lib/rtps_packet.rs": ["C20"],
+    "src/rtps_lib/rtps_prim.rs": ["C20", "C15"],
+    "src/rtps_lib/rtps_packet.rs": ["C20", "C15"],
     "src/bin/pdf_printer.rs": ["C01"],
     "src/bin/rtps_parse.rs": ["C20"],
 }
